@@ -39,6 +39,8 @@ class Check:
                               "wall_s": round(r.wall, 2), "result": "ok" if r.ok else "%s %s" % r.violated})
         return r
 
+    spec_cases_replayed = False
+
     def model_check(self, name, module, cfg, must_hold=True, **kw):
         """Run TLC; a violated property of the *model* is a machinery failure unless must_hold=False
         (models of known-defective designs are checked for the expected counterexample)."""
@@ -61,6 +63,9 @@ class Check:
 
     def finish(self, coverage_extra=None):
         wall = time.time() - self.t0
+        if not self.traces_validated and self.spec_cases_replayed:
+            # checks whose every evaluation is one specification-generated case executed on the real code (spec -> code replay)
+            self.traces_validated = self.evaluations
         cov = {"evaluations": int(self.evaluations), "distinct_nontrivial": len(self.nontrivial) if isinstance(self.nontrivial, (set, dict)) else int(self.nontrivial),
                "rule": self.rule, "samples": self.samples[:8], "states": int(self.states), "transitions": int(self.transitions),
                "traces_validated_against_impl": int(self.traces_validated), "tlc_runs": self.tlc_runs,
